@@ -64,6 +64,8 @@ def explore(system, ops, step, canon, absm=None, depth_cap=None, merge_reps=1,
             continue
         here = canon(build(hist))
         table = succ.setdefault(here, {})
+        if len(res.violations) >= max_violations:
+            break
         for op in enabled(build(hist)):
             s = build(hist)
             iobs, mobs = step(s, op)
@@ -84,7 +86,9 @@ def explore(system, ops, step, canon, absm=None, depth_cap=None, merge_reps=1,
                 frontier.append(hist + (op,))
                 if len(res.sample_histories) < 4 and len(hist) >= 2:
                     res.sample_histories.append([_j(o) for o in hist + (op,)])
-            elif seen[c] != hist + (op,) and nreps[c] < merge_reps:
+            elif seen[c] != hist + (op,) and nreps[c] < merge_reps and not res.violations:
+                # (once the implementation has left the model the state space is the mutant's, not the model's:
+                # merge checks are only meaningful while implementation and model agree)
                 # merge check: alternative representative of state c
                 nreps[c] += 1
                 rep1, rep2 = seen[c], hist + (op,)
